@@ -65,7 +65,7 @@ def run_traces(ctx, name, drv_args, timeout=1500, sub="req"):
     return v, st, reqinfo, rawev
 
 
-def report(ctx, v, reqinfo, own, sample_events=None, tag=None, own_tags=()):
+def report(ctx, v, reqinfo, own, sample_events=None, tag=None, own_tags=(), only=None):
     """Turns the `bad` records of a validated trace into verdicts for property `own`."""
     others = []
     seen_violation = False
@@ -97,6 +97,10 @@ def report(ctx, v, reqinfo, own, sample_events=None, tag=None, own_tags=()):
         seen_violation = True
         # C02 also owns a second frame on a stream: whatever request the client has outstanding there by then (none, or its
         # next one), the frame is not the answer to it
+        if only is not None and not any(b["what"].startswith(o) for o in only):
+            # this stage judges only what it names (see the plan)
+            others.append({"key": key, "what": b["what"]})
+            continue
         if b["p"] == own or b["p"] in own_tags or (own == "C02" and b["what"].startswith("second response for one request")):
             ctx.violation(key, "%s (request %s)" % (b["what"], info), replay=rec)
         else:
@@ -207,6 +211,7 @@ def run_property(ctx, own, plans, scenario_filter=None, nscen=700, extra_cov=Non
     for plan in plans:
         name, args, scripted = plan[0], plan[1], plan[2]
         tag = plan[3] if len(plan) > 3 else None
+        only = plan[4] if len(plan) > 4 else None
         a = (["-in", path] if scripted else []) + args
         if scripted == "gates":
             a = args
@@ -216,7 +221,7 @@ def run_property(ctx, own, plans, scenario_filter=None, nscen=700, extra_cov=Non
         nreq += len(reqinfo)
         st.pop("goroutine_dump", None)
         stats_all.append({name: st})
-        others += report(ctx, v, reqinfo, own, v["events"], tag=tag, own_tags=own_tags)
+        others += report(ctx, v, reqinfo, own, v["events"], tag=tag, own_tags=own_tags, only=only)
         if not samples:
             samples = [e for e in v["events"] if e["ev"] != "GC"][:30]
             if not v["bad"]:
